@@ -42,6 +42,77 @@ PROPS = {
         trusted=["a PathElem key map is an association list in arbitrary order (order independence is a theorem)"],
         partial="PathMatchesPrefix (string prefix) and PathElemsEqual are covered by the correspondence stream only.",
     ),
+    "C18": dict(
+        level="proof",
+        technique="Coq proof (exact acceptance sets of the scalar decoder, re-render stability) + differential correspondence check",
+        claim="For the transcription of sanitizeJSON/unmarshalUnion/yangFloatIntToGoType/checkJSONFloat64Range/castToEnumValue: an 8/16/32-bit "
+              "integer leaf accepts a JSON number iff it denotes an in-range integer and stores exactly it (c18_int_exact), wrong JSON kinds are "
+              "errors, whatever is accepted lies in the leaf's value space (c18_accepted_in_space), re-rendering an accepted scalar decodes to "
+              "the same scalar (c18_rerender_stable), unknown enum names are errors, base64 yields bytes only. The model decoder is compared with "
+              "ytypes.Unmarshal on every candidate scalar x every leaf of the corpus, and an independent RFC 7951 reading is the oracle.",
+        note="Trusted: Coq kernel; hand transcription tied by the 'jsondec' stream; strconv float parsing/formatting enters as the float oracle "
+             "(hypotheses fparse(ffmt b)=b and dec64_lexb(ffmt b), tested on every float of the run); decimal64 inputs with more than 15 "
+             "significant digits are not judged (ygot holds decimal64 in a float64). TypedValue payloads (SetNode) are covered by the gNMI layer.",
+        coq_files=["Tree/Codec", "Tree/CodecProofs", "Scalar/Dec", "Scalar/DecProofs", "Scalar/Base64", "Scalar/Base64Proofs", "Corr/TreeCorr"],
+        streams=[dict(name="jsondec", n=N(1800, 12000))],
+        signatures=["decode"],
+        trusted=["float oracle tables produced with strconv by the harness"],
+        partial="union member restrictions are not consulted by ygot when decoding (kind only): modelled as such; SetNode/TypedValue decoding is "
+                "not in this file's theorems.",
+    ),
+    "C19": dict(
+        level="proof",
+        technique="Coq proof (lexical form per scalar kind, prefix rule) + differential correspondence check of the renderer",
+        claim="enc_scalar (writeIETFScalarJSON/jsonValue scalar arms/enumFieldToString/binaryBase64) produces for every value the RFC 7951 form "
+              "(c19_lexical: numbers for <=32-bit ints, decimal-digit strings for 64-bit, base64, [null], booleans, names), identityrefs carry "
+              "'module:' exactly under AppendModuleName/PrependModuleNameIdentityref (c19_identityref_prefix), a member name is qualified exactly "
+              "when its module differs from its parent's and always at top level (c19_member_prefix, c19_top_level_prefixed), undefined enum "
+              "values make rendering fail (c19_undefined_enum_errors). The whole renderer model (structJSON incl. compressed multi-path fields, "
+              "shadow paths, RewriteModuleNames) is compared with ConstructIETFJSON on random trees of six generated packages.",
+        note="Trusted: Coq kernel; hand transcription tied by the 'jsonrt' stream; decimal64 text is the float oracle's (no-exponent is the "
+             "hypothesis dec64_lexb(ffmt b), checked on every emitted float against strconv.FormatFloat(f,'f',-1,64)); order of Go-map list "
+             "entries in JSON arrays is abstracted (compared as a set).",
+        coq_files=["Tree/Codec", "Tree/CodecProofs", "Tree/Render", "Corr/TreeCorr"],
+        streams=[dict(name="jsonrt", n=N(900, 9000))],
+        signatures=["lexical", "render"],
+        partial="the prefix rule is proved for the per-element function prepend_one; its use along multi-element paths is covered by correspondence.",
+    ),
+    "C20": dict(
+        level="proof",
+        technique="Coq proof of totality (no Panic outcome) of the decoder and path-parser models + differential correspondence on malformed input",
+        claim="unmarshal (the transcription of ytypes.Unmarshal: containers, lists, leaf-lists, leaves, unions, options) never yields Panic for ANY "
+              "JSON value, schema, existing tree and options (c20_unmarshal_total), and StringToPath's model never panics on any rune list. Every "
+              "Go site with an unchecked assertion found while transcribing was either fixed in /repo or has a Panic arm in the model; the "
+              "malformed-input stream compares Ok/Err/Panic outcomes with the real code and reports every real panic.",
+        note="Trusted: Coq kernel; the model can only exclude panics in the code it transcribes: reflection glue below the model (util/reflect.go, "
+             "struct-tag parsing) is covered by the streams only. SetNode/GetNode/DeleteNode/UnmarshalSetRequest and gnmidiff entry points are "
+             "covered by the gNMI-layer and gnmidiff checks.",
+        coq_files=["Tree/Unmarshal", "Tree/UnmarshalProofs", "Path/PathString", "Path/PathStringProofs", "Corr/TreeCorr"],
+        streams=[dict(name="jsondec", n=N(1800, 12000)), dict(name="pathstr", n=N(1600, 12000))],
+        signatures=["panic"],
+        partial="coverage-guided fuzzing (go test -fuzz) is not wired in; generation is structural mutation of rendered documents.",
+    ),
+    "C28": dict(
+        level="proof",
+        technique="Coq proof about a transcription of fieldTag/FNV-1 and a verified well-formedness checker + correspondence check on regenerated protobufs + adversarial collision search",
+        claim="fieldTag is a function of the hashed bytes only (c28_tag_deterministic, c28_tag_retry_spec); every number it returns is 0 or lies in "
+              "1001..2^29-1 outside 19000..19999 (c28_tag_range_partial); the full range statement and injectivity on siblings are refuted in Coq with "
+              "concrete schema paths (c28_tag_range_refuted, c28_tags_distinct_refuted) and reproduced on the real generator (known findings); "
+              "msg_wf_b/enum_wf_b/file_wf_b decide the declarative well-formedness statement (c28_msg_wf_b_spec ...). Every run regenerates protobufs "
+              "for the corpus, random and adversarial schemas under the option sets, re-computes every hashed string's tag with the model and evaluates "
+              "the verified checker on every parsed message.",
+        note="Trusted: Coq kernel; hand transcription of fieldTag and hash/fnv tied by the 'protowf' stream (TagCase/HashCase incl. generator-supplied "
+             "strings via the accessor harness_accessors/protogen/c28_acc.go); 'valid proto3' = hand-written parser for the template subset + protoc's "
+             "scoping, numbering, type-resolution and import rules re-implemented in Go (protoc is not installed); the statement quantified over all "
+             "schemas is tested by the stream, not proved (the generator itself is not modelled).",
+        coq_files=["Gen/FieldTag", "Gen/FieldTagProofs", "Gen/ProtoWF", "Gen/ProtoWFProofs", "Corr/ProtoCorr"],
+        streams=[dict(name="protowf", n=N(3000, 20000))],
+        signatures=["tag-zero", "tag-collision", "tag-unstable", "tag-text-mismatch", "tag-unexplained", "enum-", "symbol-collision", "proto-parse",
+                    "import-missing", "type-unresolved", "field-number-range", "identity-value-lost", "nondeterministic-output", "generator-panic", "package-name"],
+        trusted=["strings are hashed as their UTF-8 bytes (byte lists in the model)", "list-key field numbers (1..k+1) are checked by the oracle only"],
+        partial="c28_tag_range_partial (0 not excluded; full statement refuted by /m/c/leaf-259424739); distinctness of sibling numbers refuted "
+                "(c28_tags_distinct_refuted); well-formedness of generated files for all schemas is an oracle result with ten known-finding classes.",
+    ),
 }
 
 NOT_APPLICABLE = {}
